@@ -28,6 +28,9 @@ def run_mode(ctx, binary, mode, count, extra=None, timeout=1800, nshards=None, d
             j = json.load(open(o))
             j["_dump"] = d
             parts.append(j)
+        elif rc is not None and -rc in (4, 6, 7, 8, 11):
+            ctx.log("%s shard killed by signal %d" % (mode, -rc))
+            parts.append({"_crashed": -rc, "_cmd": "%s %s" % (os.path.basename(binary), mode), "_dump": d})
         else:
             ctx.log("%s shard did not finish (rc=%s): %s" % (mode, rc, text[-800:]))
             parts.append(None)
@@ -41,9 +44,13 @@ def merge(parts, sum_keys=("evaluations", "distinct"), dict_keys=("cells", "stat
     viol, samples = [], []
     lost = 0
     incon = None
+    from .shm import crash_violations
+    viol += crash_violations(parts)
     for p in parts:
         if p is None:
             lost += 1
+            continue
+        if p.get("_crashed"):
             continue
         if p.get("inconclusive"):
             incon = p["inconclusive"]
